@@ -134,8 +134,12 @@ func zzH_C07_rewardsToPool() {
 	zzverif.Assume(w.s.GetValidatorByMainAddr(zzValAddr(1)).IsOnline())
 	before := new(big.Int).Add(w.sum(), w.header.GasRewards) // the block's fees were debited from the senders and are still undistributed
 	poolBefore := new(big.Int).Set(w.s.GetBalance(zzC07Pool))
+	fees := new(big.Int).Set(w.header.GasRewards)
 	rewardsToPool(w.ctx)
 	zzverif.Reach("distributed")
+	// (the builder runs the hook on the header it then seals; the importing node compares the sealed
+	// value with the fees it computed itself)
+	zzverif.Assert(w.header.GasRewards.Cmp(fees) == 0, "the fee total in the header is an input of the end-of-block hook and is not changed by it")
 	zzverif.Assert(w.sum().Cmp(before) == 0, "fees, subsidy and residue are fully accounted for by proposer reward, role pools and new residue")
 	zzverif.Assert(new(big.Int).Sub(poolBefore, w.s.GetBalance(zzC07Pool)).Cmp(w.header.Subsidy) == 0 && w.header.Subsidy.Sign() >= 0, "the subsidy recorded in the header is exactly what left the rewards pool account")
 	zzverif.Reach("end")
